@@ -90,7 +90,8 @@ class C16(Property):
             "1-3 query points strictly inside cells. Non-trivial: every case (random table, off-node point); "
             "distinct by canonical encoding.")
     assumptions = [
-        "query points are strictly inside cells (distance >= 1/16 cell from every node); one-sided "
+        "query points are strictly inside cells (distance >= 1/16 cell from every node) or, with "
+        "extrapolation on, outside the table by >= 1/4; one-sided "
         "difference step 2^-17 of the cell (truncation ~1e-10 relative), tolerance 1e-7 relative to "
         "max|table| / min cell width (looser for the power-basis fixed lagrange tables, see tolerance)",
         "the model evaluates exact rationals of every double",
@@ -163,6 +164,40 @@ class C16(Property):
             out.append([[c[1] for c in pt] for pt in batch])
         return out
 
+    def outside_points(self, rng, grids, count, nvec):
+        """Batches of points with at least one coordinate strictly outside its grid (above the last or
+        below the first node by a dyadic margin); the other coordinates are inside cells."""
+        out = []
+        for b in range(count):
+            batch = []
+            for v in range(nvec):
+                forced = rng.randrange(len(grids))
+                side = ['above', 'below'][(b + v) % 2]
+                pt = []
+                for d, g in enumerate(grids):
+                    m = side if d == forced else rng.choice(['inside', 'inside', 'above', 'below'])
+                    if m == 'above':
+                        pt.append(g[-1] + rng.choice([Fraction(1, 4), Fraction(1, 2), Fraction(3, 2)]))
+                    elif m == 'below':
+                        pt.append(g[0] - rng.choice([Fraction(1, 4), Fraction(1, 2), Fraction(3, 2)]))
+                    else:
+                        i = rng.randrange(len(g) - 1)
+                        pt.append(g[i] + rng.choice(FRACS) * (g[i + 1] - g[i]))
+                batch.append(pt)
+            out.append(batch)
+        return out
+
+    def extrap_case(self, rng, method, ndim):
+        """MetaModelStructuredComp(extrapolate=True, training_data_gradients=True): evaluations outside
+        the table (above the last / below the first node) mixed with one inside."""
+        grids, vals = self.gen_table(rng, method, ndim)
+        nvec = rng.choice([1, 2])
+        batches = self.outside_points(rng, grids, 2, nvec)
+        batches.insert(rng.randrange(3), self.far_points(rng, grids, 1, nvec)[0])
+        return {'kind': 'mmsc', 'method': method, 'grids': [rats(g) for g in grids], 'values': rats(vals),
+                'pts': [rats(p) for p in batches[0]], 'seq': [[rats(p) for p in b] for b in batches[1:]],
+                'train_grad': True, 'extrapolate': True}
+
     def seq_case(self, rng, method=None, ndim=None):
         """Several evaluations on ONE MetaModelStructuredComp with training_data_gradients."""
         ndim = ndim or rng.choice([1, 2, 2, 3])
@@ -200,6 +235,16 @@ class C16(Property):
                 yield self.seq_case(rng, method, ndim)
         if tier != 'quick':
             yield self.seq_case(rng, 'akima', 3)
+        # derivative w.r.t. the table OUTSIDE the table (extrapolate=True): above the last and below the
+        # first node, every method with training_data_gradients, plus SplineComp (always extrapolates)
+        for method in GENERAL:
+            for ndim in (1, 2):
+                yield self.extrap_case(rng, method, ndim)
+        if tier != 'quick':
+            for method in GENERAL:
+                yield self.extrap_case(rng, method, 3)
+        for method in ['slinear', 'lagrange2', 'lagrange3', 'cubic', 'akima', 'akima']:
+            yield self.spline_case(rng, method, outside=True)
         # scipy-wrapped splines (third party, no Lean model): d/d(table) on N-d tables whose dimensions
         # have mixed sizes, so the spline order is reduced in some dimensions only
         for method in SCIPY:
@@ -250,6 +295,9 @@ class C16(Property):
                 if tier == 'quick' and tg and ndim == 3 and method in ('cubic', 'akima'):
                     ndim = 2      # see above
                 grids, vals = self.gen_table(rng, method, ndim)
+                if tg and rng.random() < 0.25 and (ndim < 3 or tier != 'quick'):
+                    yield self.extrap_case(rng, method, ndim)
+                    continue
                 if tg and rng.random() < 0.5 and (ndim < 3 or tier != 'quick'):
                     yield self.seq_case(rng, method, ndim)
                     continue
@@ -267,12 +315,21 @@ class C16(Property):
                     yield {'kind': kind, 'method': method, 'num_cp': ncp, 'grids': [rats(grid)],
                            'values': [rats(v) for v in vals], 'pts': [rats([x]) for x in xi]}
                 else:
-                    grids, _ = self.gen_table(rng, method, 1)
-                    ncp = len(grids[0])
-                    xi = sorted(set(self.gen_point(rng, grids)[0] for _ in range(rng.randint(2, 5))))
-                    vals = [[rng.randint(-2000, 2000) / 64.0 for _ in range(ncp)] for _ in range(vec)]
-                    yield {'kind': kind, 'method': method, 'grids': [rats(grids[0])],
-                           'values': [rats(v) for v in vals], 'pts': [rats([x]) for x in xi]}
+                    yield self.spline_case(rng, method, outside=rng.random() < 0.3)
+
+    def spline_case(self, rng, method, outside=False):
+        vec = rng.choice([1, 2])
+        grids, _ = self.gen_table(rng, method, 1)
+        ncp = len(grids[0])
+        xs = set(self.gen_point(rng, grids)[0] for _ in range(rng.randint(2, 4)))
+        if outside:
+            g = grids[0]
+            xs.add(g[-1] + rng.choice([Fraction(1, 4), Fraction(1), Fraction(3, 2)]))
+            xs.add(g[0] - rng.choice([Fraction(1, 4), Fraction(1), Fraction(3, 2)]))
+        xi = sorted(xs)
+        vals = [[rng.randint(-2000, 2000) / 64.0 for _ in range(ncp)] for _ in range(vec)]
+        return {'kind': 'spline', 'method': method, 'grids': [rats(grids[0])],
+                'values': [rats(v) for v in vals], 'pts': [rats([x]) for x in xi]}
 
     # -- helpers on a case --------------------------------------------------------------------------
     @staticmethod
@@ -288,7 +345,8 @@ class C16(Property):
         for g, x in zip(case['grids'], pt):
             gg = [unrat(v) for v in g]
             xx = unrat(x)
-            i = max(k for k, gv in enumerate(gg[:-1]) if gv <= xx)
+            inside = [k for k, gv in enumerate(gg[:-1]) if gv <= xx]
+            i = max(inside) if inside else 0      # below the table: width of the first cell
             hs.append(float((gg[i + 1] - gg[i]) * H))
         return hs
 
@@ -423,7 +481,8 @@ class C16(Property):
     def _mmsc_problem(self, case, vals, size):
         import openmdao.api as om
         grids, shape = self.arrays(case)
-        comp = om.MetaModelStructuredComp(method=case['method'], extrapolate=False, vec_size=size,
+        comp = om.MetaModelStructuredComp(method=case['method'],
+                                          extrapolate=bool(case.get('extrapolate', False)), vec_size=size,
                                           training_data_gradients=bool(case['train_grad']))
         for d, g in enumerate(grids):
             comp.add_input('x%d' % d, float(g[0]), training_data=g)
@@ -557,6 +616,8 @@ class C16(Property):
         kind, method = case['kind'], case['method']
         ctx = {'kind': kind, 'method': method, 'ndim': len(case['grids']),
                'train_grad': bool(case.get('train_grad', False))}
+        if case.get('extrapolate'):
+            ctx['extrapolate'] = True
         if kind == 'spline':
             ctx['vec_eq_ninterp'] = len(case['values']) == len(case['pts'])
         if 'err' in impl:
@@ -632,7 +693,7 @@ class C16(Property):
 
     def signature(self, case, impl, failure):
         return {k: failure[k] for k in ('what', 'kind', 'method', 'err', 'ndim', 'train_grad',
-                                            'vec_eq_ninterp', 'later_evaluation', 'order')
+                                            'vec_eq_ninterp', 'later_evaluation', 'order', 'extrapolate')
                 if k in failure}
 
     def bucket(self, case, impl):
@@ -643,6 +704,7 @@ class C16(Property):
                'points=%d' % len(case['pts']), 'impl_error' if 'err' in impl else 'impl_ok']
         if case['kind'] == 'mmsc':
             out.append('train_grad=%s' % case['train_grad'])
+            out.append('extrapolate=%s' % bool(case.get('extrapolate', False)))
         nev = len(case['pts']) if case['kind'] == 'train' else 1 + len(case.get('seq', []))
         out.append('evaluations_on_one_object=%d' % nev)
         return out
